@@ -57,6 +57,13 @@ impl C01 {
                 l.push(L::Keys { admin: true, pat });
             }
         }
+        // patterns of every form (contains / prefix / suffix) that reach the names of $$ keys
+        for pat in ["tok", "*en", "$", "$*", "*ken", "$$token", "o"] {
+            l.push(L::Keys { admin: false, pat });
+            if !quick {
+                l.push(L::Keys { admin: true, pat });
+            }
+        }
         l.push(L::Snapshot { reclaim: false });
         l.push(L::Snapshot { reclaim: true });
         C01 { letters: l, reply_kinds: Mutex::new(BTreeSet::new()) }
